@@ -725,9 +725,26 @@ def loadObsOf (j : J) : LoadObs :=
   | some t => { ok := true, obs := strIds t.obs, samp := strIds t.samp, grid := t.grid }
   | none => { ok := false, obs := [], samp := [], grid := [] }
 
-/-- what the model predicts the harness observes for a document -/
-def modelObs (dateOk : String → Bool) (j : J) (isBase : Bool) : JsonObs :=
-  { isBase := isBase, verdict := validateJson dateOk j, load := some (loadObsOf j) }
+/-- what the model predicts the harness observes for a document (`tids`: the IDs of the table a
+    written file came from, when the harness knows them) -/
+def modelObs (dateOk : String → Bool) (j : J) (isBase : Bool)
+    (tids : Option (List String × List String) := none) : JsonObs :=
+  { isBase := isBase, verdict := validateJson dateOk j, load := some (loadObsOf j), tableIds := tids }
+
+theorem ids_zipWith_recOf : ∀ (ids : List String) (mds : List J), mds.length = ids.length →
+    (List.zipWith recOf ids mds).filterMap (fun r => getItem r "id") = ids.map J.str
+  | [], _, _ => by simp
+  | _ :: _, [], h => by simp at h
+  | id :: ids, md :: mds, h => by
+    simp only [List.length_cons, Nat.add_right_cancel_iff] at h
+    simp [List.zipWith_cons_cons, getItem_recOf_id, ids_zipWith_recOf ids mds h]
+
+theorem strIds_map_str : ∀ (l : List String), strIds (l.map J.str) = l
+  | [] => rfl
+  | x :: xs => by
+    have ih := strIds_map_str xs
+    simp only [strIds, List.map_cons, List.filterMap_cons] at ih ⊢
+    rw [ih]
 
 theorem strIds_length : ∀ (l : List J), l.all isStr = true → (strIds l).length = l.length
   | [], _ => rfl
@@ -746,8 +763,11 @@ theorem chk_true (c : String) (b : Bool) (h : b = true) : Codec.chk c b = none :
     for a table of the domain, the predicate the harness evaluates on the real code is true of the
     model's verdict and load result. -/
 theorem model_holds (dateOk : String → Bool) (j : J) (isBase : Bool)
-    (hb : isBase = true → ∃ t : WTable, t.wfb dateOk = true ∧ j = docOf t) :
-    holdsJson j (modelObs dateOk j isBase) = none := by
+    (tids : Option (List String × List String))
+    (hb : isBase = true → ∃ t : WTable, t.wfb dateOk = true ∧ j = docOf t)
+    (hids : ∀ eo es, tids = some (eo, es) →
+      ∃ t : WTable, t.wfb dateOk = true ∧ j = docOf t ∧ eo = t.obs ∧ es = t.samp) :
+    holdsJson j (modelObs dateOk j isBase tids) = none := by
   have c1 : (!isBase || validateJson dateOk j == .valid) = true := by
     cases hi : isBase with
     | false => simp
@@ -772,8 +792,30 @@ theorem model_holds (dateOk : String → Bool) (j : J) (isBase : Bool)
         rw [List.all_eq_true]; intro r hr; simp [hgr r hr]
       simp only [Bool.not_true, Bool.false_or, loadMatches, loadObsOf, hl, ← ho, ← hs, lo, ls, hds, hgl,
         hdg, hall, beq_self_eq_true, Bool.and_self]
+  have c4 : tableIdsOk tids (validateJson dateOk j == .valid && numericElem j) (some (loadObsOf j)) = true := by
+    cases htd : tids with
+    | none => rfl
+    | some p =>
+      obtain ⟨eo, es⟩ := p
+      obtain ⟨t, hwf, rfl, rfl, rfl⟩ := hids eo es htd
+      have hv := written_json_valid dateOk t hwf
+      have hwf' := hwf
+      simp only [WTable.wfb, Bool.and_eq_true, decide_eq_true_eq, beq_iff_eq] at hwf'
+      obtain ⟨⟨⟨⟨⟨⟨⟨⟨⟨⟨⟨⟨⟨⟨_, _⟩, _⟩, _⟩, hol⟩, hsl⟩, _⟩, _⟩, _⟩, _⟩, _⟩, _⟩, _⟩, _⟩, _⟩ := hwf'
+      obtain ⟨_, _, _, l4, l5, _, l7, _, l9, _, _, _⟩ := lookup_doc t
+      have hidR : idsOf (docOf t) "rows" = t.obs.map J.str := by
+        simp [idsOf, records, docOf, topLookup, l4, pyIter, ids_zipWith_recOf _ _ hol]
+      have hidC : idsOf (docOf t) "columns" = t.samp.map J.str := by
+        simp [idsOf, records, docOf, topLookup, l5, pyIter, ids_zipWith_recOf _ _ hsl]
+      have hn : numericElem (docOf t) = true := by simp [numericElem, docOf, topLookup, l9]
+      have hd : dataIsList (docOf t) = true := by simp [dataIsList, docOf, topLookup, l7]
+      have hi : idsAreStrings (docOf t) = true := by
+        simp [idsAreStrings, hidR, hidC, isStr]
+      obtain ⟨t', hl, ho, hs, _⟩ := valid_json_loads_partial dateOk _ hv hn hi hd
+      simp only [tableIdsOk, hv, hn, loadObsOf, hl, ho, hs, hidR, hidC, strIds_map_str, beq_self_eq_true,
+        Bool.and_self, Bool.not_true, Bool.false_or]
   simp only [holdsJson, modelObs, Codec.allV, List.foldl_cons, List.foldl_nil]
-  rw [chk_true _ _ c1, chk_true _ _ c2, chk_true _ _ c3]
+  rw [chk_true _ _ c1, chk_true _ _ c2, chk_true _ _ c3, chk_true _ _ c4]
   rfl
 
 def modelObsH (dateOk : String → Bool) (h : H5) (isBase : Bool) : H5Obs :=
@@ -827,8 +869,9 @@ example : structuralB (docOf wT) = true := by decide
 example : writerTreeB okDate wH = true := by decide
 example : validateH5 okDate wH = .valid := written_h5_valid okDate wH (by decide)
 example : structuralHB wH = true := by decide
-example : holdsJson (docOf wT) (modelObs okDate (docOf wT) true) = none :=
-  model_holds okDate _ true (fun _ => ⟨wT, by decide, rfl⟩)
+example : holdsJson (docOf wT) (modelObs okDate (docOf wT) true (some (wT.obs, wT.samp))) = none :=
+  model_holds okDate _ true _ (fun _ => ⟨wT, by decide, rfl⟩)
+    (fun _ _ h => by cases h; exact ⟨wT, by decide, rfl, rfl, rfl⟩)
 
 /-- instances of the one theorem: typical single and double mutations are corrupt, hence refused -/
 example : corrupt (apply (.dupId .rows 0 1) (docOf wT)) = true := by decide
